@@ -961,29 +961,37 @@ def mem_layer(rep, exe, r, tier):
     built = [c07_mem.build(c) for c in cases]
     impl = [c07_mem.impl_run(c) for c in cases]
     model = None
+    vs = [c07_mem.variants(c) for c in cases]
     if exe is not None:
-        res = Model(exe).parallel_batch([("c07_mem", c07_mem.enc_case(c, a, cc)) for c, (a, cc) in zip(cases, built)])
-        model = [c07_mem.dec_model(x) for x in res]
-    nbad = 0
+        calls, owner = [], []
+        for i, (c, (a, cc)) in enumerate(zip(cases, built)):
+            for v in vs[i]:
+                calls.append(("c07_mem", c07_mem.enc_case(c, a, cc, v)))
+                owner.append(i)
+        res = Model(exe).parallel_batch(calls)
+        model = [[] for _ in cases]
+        for i, x in zip(owner, res):
+            model[i].append(c07_mem.dec_model(x))
+    nfi = nbt = 0
     for i, (c, (acc, cc)) in enumerate(zip(cases, built)):
         kinds = c07_mem.classify(c)
         for k in kinds:
             rep.count("mem_case_kind", k)
-        rep.count("mem_outcome", impl[i][0])
+        rep.count("mem_outcome", "+".join(x[0] for x in impl[i]) if isinstance(impl[i], list) else impl[i][0])
         rep.count("tag", c["tag"])
-        rep.case(c, nontrivial=impl[i][0] == "ok" and len(c["ops"]) >= 2)
-        d = c07_mem.compare_spec(c, impl[i], c07_mem.spec_run(c, acc, cc))
+        rep.case(c, nontrivial=(isinstance(impl[i], list) or impl[i][0] == "ok") and len(c["ops"]) >= 2)
+        d = c07_mem.compare_spec(c, impl[i], [c07_mem.spec_run(c, acc, cc, v) for v in vs[i]])
         if d is not None:
-            nbad += 1
-            if nbad <= 8:
-                rep.fail("failing-input", f"SEVM memory disagrees with the flat EVM memory after {c['ops']} (calldata {c['calldata']}): {d}",
+            nfi += 1
+            if nfi <= 6:
+                rep.fail("failing-input", f"SEVM memory disagrees with the flat EVM memory after {c['ops']} (calldata {c['calldata']}, fork {c.get('fork')}): {d}",
                          case={"mem_case": c, **d}, sig={"observable": "mem-" + d["observable"], "op": "memops"})
             continue
         if model is not None:
             d = c07_mem.compare_model(c, impl[i], model[i])
             if d is not None:
-                nbad += 1
-                if nbad <= 8:
+                nbt += 1
+                if nbt <= 4:
                     rep.fail("broken-tie", f"MemOpsModel and SEVM disagree (flat reference agrees with SEVM) after {c['ops']}: {d}", case={"mem_case": c, **d})
     rep.coverage["mem_layer_cases"] = len(cases)
 
@@ -1025,7 +1033,7 @@ def run(rep, tier):
     if exe is not None:
         res = Model(exe).parallel_batch([("c07_run", enc_case(c)) for c in allcases])
         model_res = [dec_model(c, x) for c, x in zip(allcases, res)]
-    nbad = 0
+    nfi = nbt = 0   # failing inputs and broken ties are capped separately: a flood of layout differences must not hide a failing input
     for i, c in enumerate(cases):
         kinds = classify(c, impl[i])
         for k in kinds or ["plain"]:
@@ -1035,8 +1043,8 @@ def run(rep, tier):
         rep.case(short(c), nontrivial=bool(kinds & {"general", "aligned", "aligned-nested", "setbyte-inside", "overlapping-self-copy", "split-nested"}))
         d = compare_spec(c, impl[i], spec_run(c))
         if d is not None:
-            nbad += 1
-            if nbad <= 10:
+            nfi += 1
+            if nfi <= 8:
                 st = c["steps"][d["step"]] if d["step"] < len(c["steps"]) else None
                 rep.fail("failing-input", f"ByteVec disagrees with the flat zero-extended array at step {d['step']} {st} of {str(c['steps'])[:400]}: {d}",
                          case={"case": c, **d}, sig={"observable": d["observable"], "op": st[0] if st else None})
@@ -1044,8 +1052,8 @@ def run(rep, tier):
         if model_res is not None:
             d = compare_model(c, impl[i], model_res[i])
             if d is not None:
-                nbad += 1
-                if nbad <= 10:
+                nbt += 1
+                if nbt <= 5:
                     rep.fail("broken-tie", f"model and implementation disagree (flat reference agrees with implementation) at step {d['step']} of {str(c['steps'])[:400]}: {d}", case={"case": c, **d})
     setitem_probe(rep, exe)
     mem_layer(rep, exe, r, tier)
@@ -1082,7 +1090,7 @@ def replay(rep, body):
         if mc:
             acc, cc = c07_mem.build(mc)
             impl = c07_mem.impl_run(mc)
-            spec = c07_mem.spec_run(mc, acc, cc)
+            spec = [c07_mem.spec_run(mc, acc, cc, v) for v in c07_mem.variants(mc)]
             print("memory case:", mc)
             print("program:", acc[c07_mem.THIS].hex())
             print("implementation:", str(impl)[:600])
